@@ -929,7 +929,9 @@ def r3_variant(ctx, v, mod, prog, own):
             if any(kind in ('nlcmp', 'atbol') for kind, _, _ in g):
                 rep.ok('C09.R3', '%s %s: line counter %s@%s under a comparison with newline' % (tag, base(f.name), k, x.line)); nfound += 1
             else:
-                fail('unguarded-%s' % k, base(f.name), where(x), '%s() changes the line counter (%s) without comparing a byte with newline' % (base(f.name), k))
+                via = (' through %s()' % base(x.callee)) if x.op in ('call', 'invoke') else ''
+                fail('unguarded-%s%s' % (k, ('-via-' + base(x.callee)) if via else ''), base(f.name), where(x),
+                     '%s() changes the line counter (%s)%s without comparing a byte with newline' % (base(f.name), k, via))
     # ---- (a) yylex counts after the match under yy_rule_can_match_eol[yy_act]
     yl = sc.fn_by_base('yylex')
     if not yl: rep.broken('no yylex in variant %s' % v.name)
